@@ -15,6 +15,10 @@ const (
 
 	MaximumOwasmGas = 8000000
 
+	// MaxDataSize bounds the MaxCalldataSize and MaxReportDataSize parameters: the larger of the two
+	// is the span size the owasm VM allocates for every calldata / external data read.
+	MaxDataSize = 1 * 1024 * 1024 // 1MB
+
 	// MaxSamplingTryCount bounds the SamplingTryCount parameter: every try is a full validator
 	// sampling run inside the request transaction, and no gas is charged for it.
 	MaxSamplingTryCount = 100
